@@ -12,7 +12,8 @@ from pyjelly.integrations.rdflib import serialize as rser  # noqa: E402
 ID = "C15"
 LEVEL = "exploration"
 RULE = ("PARSE: valid RDF 1.1 streams (from both pyjelly serializers and from the reference producer, all physical types, "
-        "with and without namespace rows) are parsed with the six entry points; per integration flat == concatenated "
+        "with and without namespace rows) are parsed with the six entry points and the two-step get_options_and_frames + "
+        "parse_jelly_flat(frames=, options=) form; per integration flat == concatenated "
         "grouped == to_graph (sequence for generic, set for rdflib stores), and the generic and rdflib flat event sequences "
         "correspond term for term through the neutral model (IRI strings, bnode labels, lexical forms, language tags, "
         "datatypes, graph names, Prefix events). WRITE: the two serializers are given corresponding input (the same "
@@ -48,7 +49,7 @@ def plan(tier: str) -> dict:
 def parse_agreement(data: bytes):
     res = {}
     for integ in ("generic", "rdflib"):
-        for entry in ("flat", "grouped", "to_graph"):
+        for entry in ("flat", "flat-prefetched", "grouped", "to_graph"):
             try:
                 res[(integ, entry)] = T.norm_events(pj.parse(integ, entry, data))
             except Exception as e:  # noqa: BLE001
@@ -58,6 +59,10 @@ def parse_agreement(data: bytes):
         i = next((k for k, (a, b) in enumerate(zip(g_flat, r_flat)) if a != b), min(len(g_flat), len(r_flat)))
         return {"clause": "integrations-differ", "summary": f"flat: generic {g_flat[i] if i < len(g_flat) else None} vs rdflib "
                                                             f"{r_flat[i] if i < len(r_flat) else None} at {i}"}
+    for integ in ("generic", "rdflib"):
+        if res[(integ, "flat-prefetched")] != res[(integ, "flat")]:
+            return {"clause": "entry-points-differ", "summary": f"{integ}: parse_jelly_flat(frames=, options=) after "
+                                                                f"get_options_and_frames differs from parse_jelly_flat(inp)"}
     st = [e for e in g_flat if e[0] == "stmt"]
     for integ in ("generic", "rdflib"):
         for entry in ("grouped", "to_graph"):
